@@ -220,6 +220,7 @@ class Check:
         self.notes = {}
         self.rule = ''
         self.rng = random.Random(seed())
+        shutil.rmtree(os.path.join(VERIF, 'replays', pid), True)      # replay files of earlier runs
 
     # -- counting ---------------------------------------------------------------------------
     def count(self, n=1):
